@@ -12,6 +12,8 @@ struct Wrap { long from; int how; Wrap() : from(0), how(0) {}
   Wrap(const vf::V& v) : from(v.id), how(1) {} Wrap(vf::V&& v) : from(v.id), how(2) { vf::V t(std::move(v)); }
   Wrap(vf::MV&& v) : from(v.id), how(3) { vf::MV t(std::move(v)); } };
 // NX = false: a container whose move constructor may throw (hand-written lists, std::deque-like types)
+// an element type from a namespace with list-building comma sugar: operator, is found by argument-dependent lookup wherever an element meets a comma
+namespace dsl { struct CE { long id; explicit CE(long i) : id(i) {} }; template<class T> std::vector<CE> operator,(CE&, T&&) { return std::vector<CE>{}; } template<class T> std::vector<CE> operator,(CE&&, T&&) { return std::vector<CE>{}; } }
 // a type with an initializer-list constructor and another one-argument constructor: construct<T> is documented (and implemented) as T{value}
 struct IL { int how; long v; IL(std::initializer_list<long> l) : how(1), v(l.size() ? *l.begin() : -1) {} explicit IL(long n) : how(2), v(n) {} };
 template<class T, bool NX = true> struct Cont { std::vector<T> items; static inline long copies = 0; long tag;
@@ -56,6 +58,15 @@ def emit(n):
             largs = ', '.join('%dL' % (500 + i) for i in range(1, n + 1))
             o.append('{ begin(); IL w = construct<IL, %d>{}(%s); REP("constructil", %d, %d, 0, "rv", (w.how == 1 && w.v == %d)); %s std::printf("\\n"); }' % (k, largs, n, k, 500 + k, ' '.join('std::printf(" c");' for _ in range(n))))
             expect.append(('constructil', n, k, 0, 'rv'))
+        # emplace_back with a standard container (emplace_back returns a reference there) and an element type that brings its own operator,
+        if n in (2, 3, 5):
+            for (c, a) in ((1, 2), (2, 1), (n, 1)):
+                if c == a or c > n: continue
+                decls = ' '.join('long z%d = %d;' % (i, i) for i in range(1, n + 1) if i not in (c, a))
+                args = ', '.join('std::move(cc)' if i == c else ('std::move(el)' if i == a else 'z%d' % i) for i in range(1, n + 1))
+                o.append('{ begin(); std::vector<dsl::CE> cc; dsl::CE el(77); %s auto&& r = emplace_back<%d, %d>{}(%s); REP("ebcomma", %d, %d, %d, "rv", ((const void*)&r == (const void*)&cc && cc.size() == 1 && cc[0].id == 77)); %s std::printf("\\n"); }' % (
+                    decls, c, a, args, n, a, c, ' '.join('std::printf(" c");' for _ in range(n))))
+                expect.append(('ebcomma', n, a, c, 'rv'))
         # val / create ignore all arguments
         for cat, ty in (('rv', 'vf::V'), ('mo', 'vf::MV')):
             args = ', '.join('std::move(a%d)' % i for i in range(1, n + 1))
@@ -120,6 +131,7 @@ def run(flavour='asan0'):
             else: exp_moved = {k}
         elif name == 'push_back': exp_copies = 1
         elif name == 'emplace_back': exp_moved = {k}
+        elif name == 'ebcomma': pass
         problems = []
         if not ok: problems.append('wrong value/identity returned')
         if copies != exp_copies: problems.append('%d copies of arguments (expected %d)' % (copies, exp_copies))
@@ -129,7 +141,7 @@ def run(flavour='asan0'):
             if moved != (i in exp_moved): problems.append('argument %d %s' % (i, 'was moved from' if moved else 'was not consumed'))
             elif abs(int(v)) != 100 + i: problems.append('argument %d changed identity' % i)
         if problems:
-            desc = {'e': '_e%d' % k, 'construct': 'construct<T,%d>' % k, 'constructil': 'construct<T,%d> for a T with an initializer-list constructor (T{value})' % k, 'push_back': 'push_back<%d,%d>' % (c, k), 'emplace_back': 'emplace_back<%d,%d>' % (c, k), 'val': 'val', 'create': 'create<T>'}[name]
+            desc = {'e': '_e%d' % k, 'construct': 'construct<T,%d>' % k, 'constructil': 'construct<T,%d> for a T with an initializer-list constructor (T{value})' % k, 'ebcomma': 'emplace_back<%d,%d> on std::vector of an element type with an overloaded comma operator' % (c, k), 'push_back': 'push_back<%d,%d>' % (c, k), 'emplace_back': 'emplace_back<%d,%d>' % (c, k), 'val': 'val', 'create': 'create<T>'}[name]
             out['viol'].append((['input:%s-%d-%d-%d-%s' % case], '%s with %d %s arguments: %s' % (desc, n, {'lv': 'lvalue', 'rv': 'rvalue', 'mo': 'move-only'}[cat], '; '.join(problems)), {'case': case, 'record': r}))
     out['samples'] = [{'case': 'push_back<3,1> with 4 rvalue arguments', 'record': got.get(('push_back', 4, 1, 3, 'rv'))}, {'case': '_e9 with 9 move-only arguments', 'record': got.get(('e', 9, 9, 0, 'mo'))}]
     return out, len(expect)
